@@ -219,6 +219,8 @@ def r13_4(ctx, m, L):
         src = norm(st)
         if any(f"{pq}.get()" in src for pq in m.pqueues) or ".write(" in src:
             break
+        if isinstance(st, ast.Expr) and isinstance(st.value, ast.Call) and any(norm(a) in m.pqueues for a in st.value.args) and repo.resolve_call(pf, st.value) is not None:
+            break  # the ordered write through a helper
         region.append(st)
     paths = enum_paths(region, rule="R13.4", where=L.where())
     bad = None
